@@ -810,6 +810,9 @@ def main():
     err = translate_sel.translate_learn(REPO, GEN, write)
     if err:
         notes.append(f"TRANSLATOR-IMP(learn): {err}")
+    err = translate_sel.translate_prune(REPO, GEN, write)
+    if err:
+        notes.append(f"TRANSLATOR-IMP(prune): {err}")
     import translate_meas
     err = translate_meas.translate_measures(REPO, GEN, write)
     if err:
